@@ -156,6 +156,9 @@ def run_router(case):
 
 def classify_router(case):
     labels = []
+    keys = [repr(sorted((k, repr(v)) for k, v in r.items() if k != 'raises')) for r in case['rules']]
+    if len(set(keys)) != len(keys):
+        labels.append('identical_rules')
     nt = False
     active = set()
     delivered = False
@@ -304,6 +307,9 @@ def message(draw, types=(4, 4, 4, 4, 1, 2, 3)):
 @st.composite
 def router_case(draw, tier, types=(4, 4, 4, 4, 1, 2, 3)):
     rules = [draw(rule()) for _ in range(draw(st.integers(1, 6)))]
+    if draw(st.integers(0, 2)) == 0:
+        # the same constraints registered twice are two subscriptions: both fire, and removing one leaves the other
+        rules.append(dict(rules[draw(st.integers(0, len(rules) - 1))]))
     msgs = []
     for _ in range(draw(st.integers(1, 4))):
         if draw(st.booleans()):
